@@ -66,6 +66,49 @@ def interpret_paren_action(ctx, g, p):
     return out
 
 
+def check_setop_grouping(ctx, model):
+    """`( union )` as operand of a set operation hands the inner node on without a parentheses mark, so the printer of the set operations has to re-establish the
+    grouping: the classes' own printers are interpreted (sa/interp.py) on the nestings of three selects under every pair of set operations - two different trees
+    may not print the same text (the grammar reads set operations left to right, so a set operation on the right-hand side was written in brackets)."""
+    from ..interp import Interp, Obj, Raised, Env
+    lst = model.classes.get('Union', [])
+    ctx.need(len(lst) == 1, 'class Union not found')
+    ci = lst[0]
+    subs = [c for c in model.subclasses(model.mro(ci)[1].name)] if len(model.mro(ci)) > 1 and model.mro(ci)[1].name != 'ASTNode' else [ci]
+    names = sorted({c.name for c in subs if c.name != model.mro(ci)[1].name}) or ['Union']
+    base_files = tuple(dict.fromkeys(c.file for c in model.mro(ci) if c.file))
+    isa = {n_: {c.name for c in model.mro(model.classes[n_][0])} for n_ in names}
+    isa['Select'] = {'ASTNode'}
+    n = 0
+
+    def sel(i):
+        return Obj('Select', alias=None, parentheses=False, _text=f'SELECT {i}')
+
+    def mk(kind, left, right, unique):
+        return Obj(kind, left=left, right=right, unique=unique, alias=None, parentheses=False)
+
+    def show(node):
+        it = Interp.for_file(ctx.src, ci.file, isa, {}, also=tuple(f for f in base_files if f != ci.file))
+        it.methods.setdefault('Select', {})
+        it.stubs['str'] = lambda it_, x: (x.attrs['_text'] if isinstance(x, Obj) and '_text' in x.attrs else it_.to_str(x))
+        try:
+            return it.to_str(node)
+        except Raised as r:
+            return f'<raises {r.exc_name}>'
+    for k1, k2, u1, u2 in itertools.product(names, names, (True, False), (True, False)):
+        right_nested = mk(k1, sel(1), mk(k2, sel(2), sel(3), u2), u1)
+        left_nested = mk(k2, mk(k1, sel(1), sel(2), u1), sel(3), u2)
+        t1, t2 = show(right_nested), show(left_nested)
+        n += 1
+        ctx.ob('C01.setop-grouping', f'{k1}{"" if u1 else " ALL"} / {k2}{"" if u2 else " ALL"}', isinstance(t1, str) and isinstance(t2, str) and ' '.join(t1.split()) != ' '.join(t2.split())
+               and not t1.startswith('<raises'),
+               f'`A {k1.upper()}{"" if u1 else " ALL"} (B {k2.upper()}{"" if u2 else " ALL"} C)` and `(A {k1.upper()}{"" if u1 else " ALL"} B) {k2.upper()}{"" if u2 else " ALL"} C` are '
+               f'different trees but print the same text `{" ".join(str(t1).split())}`: the brackets around a set operation on the right-hand side are lost, the printed '
+               f'statement re-parses grouped to the left', file=ci.file, line=ci.node.lineno, witness='select 1 union all (select 1 union select 1)')
+    ctx.setcount('setop_grouping_rows', n)
+    ctx.floor('setop_grouping_rows', 4)
+
+
 def check_parens(ctx, model):
     n = 0
     for d in DIALECTS:
@@ -75,7 +118,7 @@ def check_parens(ctx, model):
                 continue
             if p.name == 'select' and p.rhs[1] in ('select', 'union') and len(p.rhs) == 3:
                 # ( select ) used as a statement / operand of UNION: grouping is re-established by the contexts that need it
-                ctx.note(f'{d}: `{p}` returns the inner query without marking parentheses (statement-level parentheses are not kept) - listed')
+                ctx.note(f'{d}: `{p}` returns the inner query without marking parentheses: the printers of the contexts re-establish the grouping (C01.setop-grouping decides that for set operations) - listed')
                 continue
             n += 1
             fn = p.func
@@ -900,6 +943,7 @@ def run(ctx):
     ctx.assumptions = ['ASTNode.__eq__ = to_tree + printed text (checked under C18)']
     model = model_for(ctx.src)
     check_parens(ctx, model)
+    check_setop_grouping(ctx, model)
     check_reserved(ctx)
     check_printer_covers_tree(ctx, model)
     check_independent_fields(ctx, model)
